@@ -76,7 +76,28 @@ def s_visit_model(ctx, s, t):
     imports = {"": s}
     if alias:
         imports = {"ai.onnx": s} if ctx.choose(2, "alias-only") == 1 else {"": s, "ai.onnx": s}
-    graph = GraphLike([node, other], imports)
+    nodes = [node, other]
+    # optionally a control-flow node AFTER the adapted node whose body holds a node no adapter touches: visiting that subgraph (the same
+    # method recurses into it) must not make the converter forget that the enclosing graph was rewritten
+    with_subgraph = ctx.choose(2, "an If node with an untouched body follows") == 1
+    if with_subgraph:
+        inner = SObj(ir.Node, "inner_relu")
+        inner.fields.update(domain="", op_type="Relu", version=s if node_has_version else None, name="inner", attributes={}, inputs=[], outputs=[])
+        body = GraphLike([inner], {})
+        battr = SObj(ir.Attr, "then_branch")
+
+        def is_ref():
+            raise AssertionError
+
+        def as_graph():
+            raise AssertionError
+        I.models[is_ref] = lambda interp: False
+        I.models[as_graph] = lambda interp: body
+        battr.fields.update(name="then_branch", type=ir.AttributeType.GRAPH, is_ref=is_ref, as_graph=as_graph)
+        ifn = SObj(ir.Node, "if_node")
+        ifn.fields.update(domain="", op_type="If", version=s if node_has_version else None, name="if", attributes={"then_branch": battr}, inputs=[], outputs=[])
+        nodes.append(ifn)
+    graph = GraphLike(nodes, imports)
     fnode = mk_node("f0", s if node_has_version else None)
     func = GraphLike([fnode], dict(imports))
     model = SObj(ir.Model, "model")
